@@ -30,7 +30,12 @@ def schema_class(pattern):
     return {"name": name, "acc": [v for v in DUR_SAMPLES if rx.search(v)], "rej": [v for v in DUR_SAMPLES if not rx.search(v)]}
 
 
-def loader_class(go_type):
+LIST_MIN1 = {"name": "nonempty", "acc": [], "rej": ["[]", "{}"]}
+
+
+def loader_class(go_type, validate=""):
+    if ("gt=0" in validate.split(",") or "min=1" in validate.split(",")) and (go_type.startswith("[]") or go_type.startswith("map[")):
+        return dict(LIST_MIN1)
     if go_type.lstrip("*") == "time.Duration":
         return {"name": "go_duration", "acc": [v for v in DUR_SAMPLES if GO_DURATION.match(v)],
                 "rej": [v for v in DUR_SAMPLES if not GO_DURATION.match(v)]}
@@ -121,6 +126,9 @@ def schema_table(repo):
                 if n is not None:
                     sub = opts_of(n, depth + 1)
             cls = schema_class(o["pattern"]) if enum is None and rng is None and isinstance(o.get("pattern"), str) else None
+            if cls is None and ((o.get("type") == "array" and o.get("minItems", 0) >= 1) or
+                                (o.get("type") == "object" and o.get("minProperties", 0) >= 1)):
+                cls = dict(LIST_MIN1)
             opts.append({"name": on, "required": r, "enum": enum, "range": rng, "cls": cls, "sub": sub, "sub_elem": sub_elem,
                          "int": o.get("type") in ("integer", "number")})
         if cfg.get("additionalProperties", True) is not False:
@@ -154,8 +162,9 @@ def loader_table(path):
     for m in L:
         def conv(os_):
             return sorted([{"name": o["name"], "required": o["required"], "enum": o.get("oneof"), "range": o.get("range"),
-                            "cls": loader_class(o["go_type"]) if not o.get("oneof") and not o.get("range") else None,
+                            "cls": loader_class(o["go_type"], o.get("validate", "")) if not o.get("oneof") and not o.get("range") else None,
                             "sub": conv(o["sub"]) if o.get("sub") else None, "sub_elem": bool(o.get("sub_elem")),
+                            "is_map": o["go_type"].startswith("map["),
                             "int": o["go_type"].lstrip("*") in ("int", "int64", "uint", "uint64", "int32", "uint32", "float64")}
                            for o in os_], key=lambda o: o["name"])
         opts = conv(m["opts"])
@@ -177,7 +186,7 @@ def flatten_pair(sopts, lopts, prefix=""):
         for side, o, acc in (("s", a, fs), ("l", b, fl)):
             if o is not None:
                 acc.append({"name": prefix + n, "required": o["required"], "enum": o["enum"], "range": o.get("range"),
-                            "cls": o.get("cls"), "int": o.get("int", False)})
+                            "cls": o.get("cls"), "int": o.get("int", False), "is_map": o.get("is_map", False)})
         if a and b and a.get("sub") and b.get("sub") and bool(a.get("sub_elem")) == bool(b.get("sub_elem")):
             sep = "[]." if a.get("sub_elem") else "."
             s2, l2 = flatten_pair(a["sub"], b["sub"], prefix + n + sep)
@@ -325,10 +334,16 @@ def probes(stbl, ltbl):
                 if rg and rg[0] is not None and rg[1] is not None:
                     enums.append([str(int(rg[0]) - 1), str(int(rg[0])), str(int(rg[1])), str(int(rg[1]) + 1)])
             if any(o.get("cls") for o in os_.values()):
-                for v in DUR_SAMPLES:
-                    cfg = with_value(base, n, v)
+                if any(o.get("cls") and o["cls"]["name"] == "nonempty" for o in os_.values()):
+                    is_map = any(o.get("is_map") for o in os_.values())
+                    cfg = with_value(base, n, {} if is_map else [])
                     if cfg is not None:
-                        add("class-value", [[n, v]], cfg, known)
+                        add("empty-list", [[n, "{}" if is_map else "[]"]], cfg, known)
+                else:
+                    for v in DUR_SAMPLES:
+                        cfg = with_value(base, n, v)
+                        if cfg is not None:
+                            add("class-value", [[n, v]], cfg, known)
             if enums:
                 vals = []
                 for e in enums:
